@@ -33,7 +33,7 @@ type netProto struct {
 	giant func(in []byte) bool
 	// declShort: a SCALE byte string inside the (protobuf) message declares more than it carries
 	declShort func(in []byte) bool
-	inner func(k *kernel.K, valid []byte, f func(m mutant))
+	inner     func(k *kernel.K, valid []byte, f func(m mutant))
 }
 
 type encoder interface{ Encode() ([]byte, error) }
